@@ -326,6 +326,21 @@ func goState(id int64) string {
 	}
 }
 
+// flightGoroutines counts goroutines that singleflight started for a fetch and
+// that have not returned yet, including ones that have not run at all so far.
+func flightGoroutines() int {
+	buf := make([]byte, 1<<18)
+	for {
+		n := runtime.Stack(buf, true)
+		if n < len(buf) {
+			buf = buf[:n]
+			break
+		}
+		buf = make([]byte, 2*len(buf))
+	}
+	return bytes.Count(buf, []byte("singleflight.(*Group).doCall("))
+}
+
 // settleGoroutines waits until the goroutine count is back at the baseline.
 func settleGoroutines(base int, slack int) int {
 	deadline := time.Now().Add(3 * time.Second)
